@@ -2,12 +2,14 @@
    depth - never changes the outcome: the record and the events returned by Parser.parse are those of the expression with
    its separators erased (Proofs/LRfull.v covers the three separators). *)
 From HX Require Import Model.Base Model.Lexer Model.Value Model.Operators Model.Interp Proofs.LRcert Proofs.LRvalue Proofs.LRfull.
+From Coq Require Import Lia.
 Open Scope Z_scope.
 
 Fixpoint erase (e : expr) : expr :=
   match e with
   | XCall _ n args => XCall SComma n (map erase args)
   | XArr _ items => XArr SComma (map erase items)
+  | XArr2 _ r1 r2 => XArr2 SComma (map erase r1) (map erase r2)
   | XNeg e => XNeg (erase e)
   | XBin b l r => XBin b (erase l) (erase r)
   | XPar e => XPar (erase e)
@@ -21,10 +23,11 @@ Proof.
 Qed.
 Theorem separators_erased h : forall e, xval h (erase e) = xval h e.
 Proof.
-  induction e as [d|ip fp|fp|pn|pa pb|str|xe|n|k lab|k1 l1 k2 l2|sp name args IHargs|sp items IHitems|e IH|b l r IHl IHr|e IH] using expr_ind';
+  induction e as [d|ip fp|fp|pn|pa pb|str|xe|n|k lab|k1 l1 k2 l2|sp name args IHargs|sp items IHitems|rs row1 row2 IHr1 IHr2|e IH|b l r IHl IHr|e IH] using expr_ind';
     cbn [erase xval]; try reflexivity.
   - rewrite (xvals_map h args IHargs). reflexivity.
   - rewrite (xvals_map h items IHitems). reflexivity.
+  - rewrite (xvals_map h row1 IHr1). apply ebind_ext. intros a. rewrite (xvals_map h row2 IHr2). reflexivity.
   - rewrite IH. reflexivity.
   - rewrite IHl. apply ebind_ext. intros lv. rewrite IHr. reflexivity.
   - exact IH.
@@ -58,3 +61,17 @@ Example array_example :
   let e := XArr SBack [XNum [49]; XBin Plus (XNum [50]) (XNum [51]); XArr SSemi [XStr [34;97;34]; XVar [120]]] in
   xwp e /\ lex [123;49;92;50;43;51;92;123;34;97;34;59;120;125;125] = LexOk (xtoks e).
 Proof. split; [cbn; tauto|vm_compute; reflexivity]. Qed.
+
+(* ... and one with ";" between two comma- or backslash-separated rows is the list of those two rows *)
+Theorem array_two_rows h rs r1 r2 a ea b eb : xvals (xval h) r1 = (ROk a, ea) -> xvals (xval h) r2 = (ROk b, eb) ->
+  xval h (XArr2 rs r1 r2) = (ROk (VList [VList a; VList b]), ea ++ eb).
+Proof. intros H1 H2. cbn [xval]. rewrite H1. cbn [ebind]. rewrite H2. cbn [ebind]. rewrite app_nil_r. reflexivity. Qed.
+Theorem array_two_rows_parsed h s rs r1 r2 a ea b eb : s <> [] -> lex s = LexOk (xtoks (XArr2 rs r1 r2)) -> xwp (XArr2 rs r1 r2) ->
+  xvals (xval h) r1 = (ROk a, ea) -> xvals (xval h) r2 = (ROk b, eb) -> parse_formula h s = (PResult (VList [VList a; VList b]), ea ++ eb).
+Proof.
+  intros Hs Hl Hw H1 H2. rewrite (parse_formula_expr h s _ Hs Hl Hw), (array_two_rows h rs r1 r2 a ea b eb H1 H2). reflexivity.
+Qed.
+Example array_two_rows_example :
+  let e := XArr2 SBack [XNum [49]; XVar [120]] [XNum [51]; XNum [52]; XNeg (XNum [53])] in
+  xwp e /\ lex [123;49;92;120;59;51;92;52;92;45;53;125] = LexOk (xtoks e).
+Proof. split; [cbn; repeat split; try discriminate; lia|vm_compute; reflexivity]. Qed.
